@@ -580,7 +580,7 @@ void prop(const Case& cs) {
 // small states whose images have their own layout (single item, raw items, exact mode, LIST/SET coupons, warm-up, buffer-only) and fewer empties
 rc::Gen<Case> gen() {
   using namespace vf;
-  auto nGen = rc::gen::weightedOneOf<int64_t>({{1, range(0, 1)}, {1, rc::gen::just<int64_t>(1)}, {3, range(2, 12)}, {2, range(13, 60)}, {3, range(61, 300)}, {3, range(300, 3500)}});
+  auto nGen = rc::gen::weightedOneOf<int64_t>({{1, range(0, 1)}, {2, rc::gen::just<int64_t>(1)}, {3, range(2, 12)}, {2, range(13, 60)}, {3, range(61, 300)}, {3, range(300, 3500)}});
   auto mk = [nGen](const char* name) {
     std::string nm(name);
     return rc::gen::map(rc::gen::tuple(nGen, range(0, 7), range(0, 1 << 20), range(0, 63)), [nm](std::tuple<int64_t, int64_t, int64_t, int64_t> t) { return Op{nm, {std::get<0>(t), std::get<1>(t), std::get<2>(t), std::get<3>(t)}}; });
@@ -588,7 +588,8 @@ rc::Gen<Case> gen() {
   // one mandatory batch (an op list may come out empty) followed by a size-scaled list of further update / merge batches
   auto ops = rc::gen::map(rc::gen::tuple(choose({{4, mk("u")}, {1, mk("m")}}), oplist(choose({{3, mk("u")}, {1, mk("m")}}), 1, 0.05)),
                           [](std::tuple<Op, std::vector<Op>> t) { std::vector<Op> v; v.push_back(std::get<0>(t)); for (auto& o : std::get<1>(t)) v.push_back(o); return v; });
-  return make_case({{"fam", range(0, fam::NFAM - 1)}, {"a", range(0, 1 << 16)}, {"b", range(0, 1 << 16)}, {"c", range(0, 1 << 16)},
+  long only = env_long("C10_FAM", -1);  // development aid (mutant runs): restrict the family
+  return make_case({{"fam", only >= 0 ? range(only, only) : range(0, fam::NFAM - 1)}, {"a", range(0, 1 << 16)}, {"b", range(0, 1 << 16)}, {"c", range(0, 1 << 16)},
                     {"seed", rc::gen::weightedOneOf<int64_t>({{3, rc::gen::just<int64_t>(0)}, {1, range(1, 1000)}})}, {"rnd", range(1, 1 << 20)}, {"pre", range(0, 3)}},
                    ops);
 }
